@@ -289,7 +289,8 @@ def gen_contract(rng, name, uid):
             attr = ''
         parts.append('    %s%s v%d%s;\n' % (t, attr, i, init))
     for j in range(rng.choice([0, 0, 1, 2])):
-        parts.append(gen_struct(rng, 'S%d_%d' % (uid, j), '    '))
+        # half of the nested structs share their name with structs of the other contracts of the file
+        parts.append(gen_struct(rng, ('S%d_%d' % (uid, j)) if rng.random() < 0.5 else 'Shared%d' % j, '    '))
     for j in range(rng.choice([0, 1, 2])):
         parts.append(rng.choice([
             '    function g%d(uint256 a) public pure returns (uint256) { uint8 l = 1; return a + l; }\n' % j,
@@ -340,6 +341,14 @@ FIXED_PROGRAMS = [
     'contract A { address payable a; uint96 b; uint256 c; bytes12 d; address e; }',
     'contract A { uint248 a; uint8 b; uint8 c; uint248 d; }',
     'contract A { bytes31 a; bytes1 b; bytes1 c; bytes31 d; }',
+    # several declarations with the same name but different member orders (a verdict must not be remembered by name)
+    'contract A { struct Order { uint128 a; uint256 b; uint128 c; } }\ncontract B { struct Order { uint128 a; uint128 c; uint256 b; } }\n'
+    'contract C { struct Order { uint128 a; uint256 b; uint128 c; } }\nstruct Order { uint256 b; uint128 a; uint128 c; }',
+    'contract B { struct Order { uint128 a; uint128 c; uint256 b; } }\ncontract A { struct Order { uint128 a; uint256 b; uint128 c; } }',
+    'contract Same { uint128 a; uint256 b; uint128 c; }\nlibrary Same { struct Same { uint128 a; uint128 c; uint256 b; } }\nabstract contract Same { uint128 a; uint128 c; uint256 b; }',
+    # small contracts before a packable one / before an optimal one (state must not leak from one contract to the next)
+    'contract Pausable { bool paused; }\ncontract Pool { uint128 a; uint256 b; uint128 c; }\ncontract Guarded { uint256 g1; bool g2; }\ncontract Registry { uint256 r1; address r2; bool r3; }',
+    'interface I { struct S { uint128 a; uint256 b; uint128 c; } struct T2 { uint128 a; uint128 c; uint256 b; } }',
 ]
 
 
@@ -347,6 +356,8 @@ def programs(ctx, n):
     rng = random.Random(ctx.seed * 1000003 + 11)
     progs = [{'gen': 'c10-fixed:%d' % i, 'src': s} for i, s in enumerate(FIXED_PROGRAMS)]
     progs += [gen_program(rng, k) for k in range(n)]
+    import gen_programs as gp
+    progs += gp.special_programs()
     return progs
 
 
